@@ -52,6 +52,12 @@ def corpus(seed, n):
         texts.append((f"{nm} v. {nm}, 1 U.S. 1 (1999). Later, {nm} at 5 was distinguished; {nm} at 7.", None))
         texts.append((f"<p><em>{nm} v. {nm}</em>, 2 F.2d 2 (1950). In <i>{nm}</i> the court held; {nm} at 9.</p>",
                       ["html", "all_whitespace"]))
+    for nm, other in (("Harlow", "State"), ("Quimby", "People"), ("Zorbex", "United States"), ("Lissner", "Amick")):
+        # the same name as defendant of one case and plaintiff of another (different documents)
+        for P, D, r in ((other, nm, "U.S."), (nm, other, "F.2d")):
+            texts.append((f"<p>See {P} v. {D}, 3 {r} 3 (1990). In <em>{nm}</em>, the court held otherwise; <i>{nm}</i> at 9.</p>",
+                          ["html", "all_whitespace"]))
+            texts.append((f"See {P} v. {D}, 3 {r} 3 (1990). In {nm} at 5, the court held otherwise.", None))
     k = 0
     while k < n:
         e = EXTRACTORS[rng.randrange(len(EXTRACTORS))]
@@ -129,7 +135,15 @@ def run_seed(spec, rec):
     toks = {"ac": tok.get("ac"), "hs": tok.get("hs")}
     out = {}
     texts = corpus(spec["seed"], spec["n"])
-    for tid, (text, steps) in enumerate(texts):
+    order = list(range(len(texts)))
+    if spec["hashseed"] % 2:
+        # the odd processes also walk the corpus in their own order: the result for a text may not depend on
+        # which other texts the process has seen before it (a difference between processes is then due to
+        # the hash seed or to the call history - the witness names both)
+        random.Random(f"order-{spec['hashseed']}").shuffle(order)
+        rec.count("processes_with_own_call_order")
+    for tid in order:
+        text, steps = texts[tid]
         for oi, opts in enumerate(OPTS):
             if oi and tid % 3:
                 continue
@@ -175,6 +189,11 @@ def run_repeat(spec, rec):
                     rec.nontrivial([text, steps, opts])
             if cs and len(held) < 400:
                 held.append((key, cs, ser, text, steps, opts))
+            elif cs and rng.random() < 0.3:
+                # what callers do with the list they were handed (merge in place, re-sort): it is theirs
+                cs.extend(cs[:1])
+                cs.reverse()
+                rec.count("returned_lists_mutated_by_caller")
             if rng.random() < 0.3:
                 evaluate(gen.dense_doc(rng, maxfrag=3), None, OPTS[0], toks)   # unrelated text in between
     # deep snapshot: results returned earlier must still serialise the same
@@ -361,7 +380,7 @@ def finalize(agg, results):
         vals = {s: per_seed[s].get(key, {}).get("h") for s in seeds}
         ncmp += len(seeds) - 1
         tid = int(key.split("|")[0])
-        if tid < len(TIES) + 8 and key.endswith("|0"):
+        if tid < len(TIES) + 24 and key.endswith("|0"):
             ties += 1
         if ref[key]["n"] > 0:
             agg["distinct"].add(core.h64(["c15", key]))
@@ -372,12 +391,16 @@ def finalize(agg, results):
             groups = {}
             for s, h in vals.items():
                 groups.setdefault(h, []).append(s)
-            v = dict(monitor="C15.differs_across_hash_seeds",
+            # even-numbered processes share one call order: if they agree among themselves and only the
+            # odd ones (own call order) deviate, the call history is the likelier cause
+            even = {h for s_, h in vals.items() if s_ % 2 == 0}
+            mon = "C15.differs_across_hash_seeds" if len(even) > 1 else "C15.differs_with_call_order_or_hash_seed"
+            v = dict(monitor=mon,
                      case=dict(text=text, steps=steps, opts=OPTS[int(key.split("|")[1])]),
-                     observed=dict(distinct_outputs=len(groups), seeds_by_output=list(groups.values())), expected=None)
+                     observed=dict(distinct_outputs=len(groups), seeds_by_output=list(groups.values()),
+                                   note="odd hash seeds also walk the corpus in their own order"), expected=None)
             agg["violations"].append(core.jsonable(v))
-            agg["viol_counts"]["C15.differs_across_hash_seeds|None"] = \
-                agg["viol_counts"].get("C15.differs_across_hash_seeds|None", 0) + 1
+            agg["viol_counts"][mon + "|None"] = agg["viol_counts"].get(mon + "|None", 0) + 1
     agg["counters"]["cross_seed_comparisons"] = ncmp
     agg["counters"]["tie_texts"] = ties
     agg["samples"].insert(0, dict(hash_seeds=seeds, keys_compared=len(ref),
